@@ -644,6 +644,16 @@ class Mini:
             if n[1].endswith("ops::range::Range") or n[1].endswith("ops::Range"):
                 f = {k: self.ev(v, env) for k, v in n[2]}
                 return ("range", f["start"], f["end"])
+            if n[1].endswith("ops::range::RangeTo") or n[1].endswith("ops::RangeTo"):
+                f = {k: self.ev(v, env) for k, v in n[2]}
+                return ("range", 0, f["end"])
+            if n[1].endswith("RangeToInclusive"):
+                f = {k: self.ev(v, env) for k, v in n[2]}
+                if isinstance(f["end"], int):
+                    return ("range", 0, f["end"] + 1)
+            if n[1].endswith("ops::range::RangeFrom") or n[1].endswith("ops::RangeFrom"):
+                f = {k: self.ev(v, env) for k, v in n[2]}
+                return ("rangefrom", f["start"])
             if n[1].endswith("RangeInclusive"):
                 raise Unsupported("RangeInclusive literal")
             return ("struct", n[1], {k: self.ev(v, env) for k, v in n[2]})
@@ -666,10 +676,16 @@ class Mini:
                     if i < 0 or i >= len(b):
                         raise Panic(f"index {i} out of bounds (len {len(b)})")
                     return b[i]
-                if isinstance(i, tuple) and i[0] == "range":
+                if isinstance(i, tuple) and i[0] == "rangefrom" and isinstance(i[1], int):
+                    i = ("range", i[1], len(b))
+                if isinstance(i, tuple) and i[0] == "rangeincl" and isinstance(i[1], int) and isinstance(i[2], int):
+                    i = ("range", i[1], i[2] + 1)
+                if isinstance(i, tuple) and i[0] == "range" and isinstance(i[1], int) and isinstance(i[2], int):
                     if i[1] > i[2] or i[2] > len(b):
                         raise Panic(f"slice {i[1]}..{i[2]} out of bounds (len {len(b)})")
                     return b[i[1]:i[2]]
+                if H.tag(H.strip(n[4])) == "path" and "RangeFull" in H.strip(n[4])[1]:
+                    return b
             raise Unsupported(f"index {b!r}[{i!r}]")
         if t == "block":
             env.append({})
@@ -1349,7 +1365,16 @@ class Mini:
                     raise Unsupported("flatten over non-Option items")
             return ("iter", out)
         if p == "std::iter::traits::iterator::Iterator::zip":
-            return ("iter", list(zip(self.iterate(recv), self.iterate(args[0]))))
+            a_, b_ = recv, args[0]
+            inf_a = isinstance(a_, tuple) and a_ and a_[0] == "rangefrom" and isinstance(a_[1], int)
+            inf_b = isinstance(b_, tuple) and b_ and b_[0] == "rangefrom" and isinstance(b_[1], int)
+            if inf_a and not inf_b:
+                ys = self.iterate(b_)
+                return ("iter", [(a_[1] + i, y) for i, y in enumerate(ys)])
+            if inf_b and not inf_a:
+                xs = self.iterate(a_)
+                return ("iter", [(x, b_[1] + i) for i, x in enumerate(xs)])
+            return ("iter", list(zip(self.iterate(a_), self.iterate(b_))))
         if p == "std::iter::traits::iterator::Iterator::fold":
             acc = args[0]
             for x in self.iterate(recv):
